@@ -71,7 +71,7 @@ func Main(run *hx.Run) {
 	for _, comp := range c02.Comps {
 		r := run.R.Fork(comp)
 		// churn with a small resident set: the live size stays small, the number of deletes is unbounded
-		for k, n := 0, run.Scale(10); k < n; k++ {
+		for k, n := 0, run.Scale(25); k < n; k++ {
 			hname := degenerate[k%len(degenerate)]
 			cycles := r.Range(40, 400)
 			c := hx.Case{Header: c02.Header(r, comp, hname), Ops: c02.GenChurn(r, r.Intn(20), cycles, true)}
@@ -92,13 +92,13 @@ func Main(run *hx.Run) {
 			}
 		}
 		// colliding live keys up to the load boundary, then absent keys
-		for k, n := 0, run.Scale(6); k < n; k++ {
+		for k, n := 0, run.Scale(15); k < n; k++ {
 			hname := []string{"const", "mod3", "modm"}[k%3]
 			c := hx.Case{Header: c02.Header(r, comp, hname), Ops: genFill(r, r.Range(10, 140))}
 			run.Do(comp, c, Exec)
 		}
 		// oscillation around a boundary
-		for k, n := 0, run.Scale(6); k < n; k++ {
+		for k, n := 0, run.Scale(15); k < n; k++ {
 			hname := degenerate[r.Intn(len(degenerate))]
 			c := hx.Case{Header: c02.Header(r, comp, hname), Ops: genOscillate(r, r.Range(8, 200), r.Range(10, 60))}
 			run.Do(comp, c, Exec)
